@@ -502,6 +502,6 @@ func TestVfReplay_SM(t *testing.T) {
 		})
 	}
 	if out.viol != nil {
-		t.Fatalf("%s", vfFail(c.Profile, "replay", out.viol.Sig, &c, "%s", out.viol.Msg))
+		t.Fatalf("%s", vfFail(c.Profile, "cachesm", out.viol.Sig, &c, "%s", out.viol.Msg))
 	}
 }
